@@ -53,6 +53,14 @@ def run(chk):
                          tags=["c09"], timeout=2400)
     cases = vlib.read_jsonl(out)
     vlib.cleanup(out)
+    # DTLS 1.3 leg: encrypted sequence numbers, opened with the sender's write generations
+    out13 = vlib.out_path("c09v13")
+    rc13, o13 = vlib.go_test(".", "^TestVerifC09V13$", {"VERIF_SEED": chk.seed, "VERIF_TIER": chk.tier, "VERIF_OUT": out13},
+                             tags=["c09", "c09v13", "c20"], timeout=2400)
+    cases += vlib.read_jsonl(out13)
+    vlib.cleanup(out13)
+    if rc13 != 0 and rc == 0:
+        rc, o = rc13, o13
     found = False
     if rc != 0:
         kind = vlib.classify_go_failure(o)
@@ -120,9 +128,9 @@ def run(chk):
         level="proof",
         rule="whole DTLS 1.2 sessions in a synctest bubble: each of the first datagrams dropped once (retransmission of every "
              "flight), small MTUs (fragmented flights), duplicated datagrams, 1-3 concurrent writers per side, Close alerts, "
-             "export/import of the server session, counter preset at 2^48-1-{0,1,3}. Non-trivial = session with a fault, an "
+             "export/import of the server session, counter preset at 2^48-1-{0,1,3}; DTLS 1.3 sessions (loss, concurrent writers, "
+             "key updates on both sides) with every record opened to read its encrypted number. Non-trivial = session with a fault, an "
              "import or a preset; distinct by (variant, mtu, drop, dup, import, preset).",
         assumptions=["the write lock serialises allocation+marshalling under the Go memory model (schedules are sampled by the runtime; "
                      "the model treats each emission as atomic)",
-                     "DTLS 1.3 encrypted sequence numbers are checked in C20's harness, not here",
                      "distinct record numbers give distinct nonces: nonce layout injectivity is C10's theorem"])
